@@ -68,6 +68,15 @@ func (e *Env) Load(srcs []core.Source) *core.Program {
 	return p
 }
 
+// LoadFixed loads sources after a suggested edit: unused imports are tolerated.
+func (e *Env) LoadFixed(srcs []core.Source) *core.Program {
+	e.n++
+	dir := filepath.Join(e.Work, fmt.Sprintf("p%d", e.n))
+	p := core.Load(e.Fset, dir, fmt.Sprintf("verif.test/p%d", e.n), srcs, core.LoadOpts{AllowUnusedImports: true})
+	e.live = append(e.live, p)
+	return p
+}
+
 // LoadTolerant is Load in the error-tolerant mode (C19).
 func (e *Env) LoadTolerant(srcs []core.Source) *core.Program {
 	e.n++
